@@ -19,7 +19,7 @@ def main():
     ap.add_argument('--tier', default=os.environ.get('VERIF_TIER') or 'quick',
                     choices=['quick', 'thorough'])
     ap.add_argument('--replay')
-    args = ap.parse_args()
+    args, rest = ap.parse_known_args()
     if os.environ.get('PYTHONHASHSEED') != '0':
         os.environ['PYTHONHASHSEED'] = '0'
         os.environ['PYTHONDONTWRITEBYTECODE'] = '1'
@@ -27,7 +27,7 @@ def main():
     from sim import core, runner
     if args.pid == 'selftest':
         from sim import selftest
-        sys.exit(selftest.main(sys.argv[2:]))
+        sys.exit(selftest.main(rest))
     if args.pid not in SCENARIOS:
         print('unknown property ' + args.pid)
         sys.exit(core.EXIT_HARNESS)
